@@ -375,6 +375,11 @@ def idiom_cases(T):
             name = '%s<%s>' % (fn_, tg)
             if t.op in ('fptosi', 'fptoui'):
                 a = t.args[0]
+                if (fn_ == 'uround') != (t.op == 'fptoui'):
+                    return [R.ob(name, 'idiom', R.REFUTED,
+                                 '%s converts with %s: %s' % (fn_, t.op, 'a nearest integer in (2^31, 2^32) is representable in the unsigned result type but the conversion goes through int (undefined; 2147483648 on x86)'
+                                                              if fn_ == 'uround' else 'negative values are not representable in the unsigned intermediate type'),
+                                 where=R.where_of(it, t), kernel=k.source())]
                 if a.op == 'fn' and a.args[0] in ('round', 'rint', 'nearbyint', 'roundeven') and a.args[1] is x:
                     return [R.ob(name, 'idiom', R.PROVED, 'conversion of %s(x): a nearest integer, exact' % a.args[0], kernel=k.source())]
                 if a.op == 'fadd' and any(p.op == 'const' and tm.fval(p) == 0.5 for p in a.args) and any(p is x for p in a.args):
